@@ -145,6 +145,15 @@ def extract():
     if pc < 0 or pp < 0:
         raise ExtractError("wait_for_reconnect: cancel test / pending_resume.take() not found")
     facts["reconnCancelFirst"] = pc < pp
+    # ---- cancel: the reason is written only while none is stored (`if G.cancelled.is_none() { … }`) --------
+    b = _norm(fn_body(tc, "cancel"))
+    writes = re.findall(r"(\w+)\.cancelled = ", b)
+    if not writes or "notify_all()" not in b:
+        raise ExtractError("cancel: no `G.cancelled = …` write / no notify_all() found")
+    # exactly one write, of `Some(reason.into())`, inside exactly this guard; any other guard (a test on the
+    # stored string, an `||`, no guard) is read pessimistically: a later cancel may replace the reason
+    facts["cancelFirstWins"] = len(writes) == 1 and re.search(
+        r"if (\w+)\.cancelled\.is_none\(\) \{ \1\.cancelled = Some\(reason\.into\(\)\); self\.cv\.notify_all\(\); \}", b) is not None
     b = fn_body(tc, "advance_to_file")
     sts = statements(b)
     facts["advanceDropsPending"] = any(re.fullmatch(r"\w+\.pending_resume = None;", st) for st in sts)
@@ -206,7 +215,7 @@ def extract():
             raise ExtractError(f"TransferControl::{r} does not take self.inner.lock()")
     facts["lockCalls"], facts["guardDrops"] = lock_calls, guard_drops
 
-    pats = {"credit predicate": r"let in_flight\s*=", "ack cap": r"let capped\s*=",
+    pats = {"cancel guard": r"pub fn cancel\(", "credit predicate": r"let in_flight\s*=", "ack cap": r"let capped\s*=",
             "eviction guard": r"while\s+self\.bytes_held", "trailing edge": r"fn highest_end_offset"}
     facts["where"] = {k: SRC + ":" + str(_line_of(full, v)) for k, v in pats.items()}
     return facts
@@ -223,7 +232,8 @@ def render(f):
         f"    ackFileTest := {b(f['ackFileTest'])}, ackCap := {b(f['ackCap'])}, ackStrict := {b(f['ackStrict'])},",
         f"    evictHeldGt := {b(f['evictHeldGt'])}, evictKeepOne := {b(f['evictKeepOne'])}, edgeAdd := .{f['edgeAdd']},",
         f"    resumeCap := {b(f['resumeCap'])}, reconnCancelFirst := {b(f['reconnCancelFirst'])},",
-        f"    advanceDropsPending := {b(f['advanceDropsPending'])}, advanceKeepsCancel := {b(f['advanceKeepsCancel'])} }}",
+        f"    advanceDropsPending := {b(f['advanceDropsPending'])}, advanceKeepsCancel := {b(f['advanceKeepsCancel'])},",
+        f"    cancelFirstWins := {b(f['cancelFirstWins'])} }}",
         "/-- For every method of `TransferControl` that takes the mutex: how many times its body calls",
         "`self.inner.lock()` (one acquisition = the whole method is one critical section). -/",
         "def transferLockCalls : List (String × Nat) := [" + ", ".join(f'("{n}", {c})' for n, c in f["lockCalls"]) + "]",
